@@ -40,9 +40,10 @@ CONSTANTS
   MaxArgs = 2
   MaxQSize = 1
   MaxStr = 0
+  Kinds = {"shape"}
   ExprHeads = TRUE
   GroupQueries = FALSE
-  GroupPipeHead = FALSE
+  GroupPipeHead = "none"
   LexerUnescapes = FALSE
   EscapeTagValues = FALSE
 CONSTRAINT Emit
